@@ -315,9 +315,12 @@ Fixpoint mc_parse_shells (shell_am : Z) (blocks : list (list string)) : res (lis
   | b :: t => do s <- mc_parse_shell shell_am b; do r <- mc_parse_shells (shell_am + 1)%Z t; ok (s :: r)
   end.
 
-(* _parse_electron_lines after create_element_data: gives the nuclear charge of the second line (the caller turns it into
-   ecp_electrons) and the shells *)
-Definition mc_parse_electron_block (basis_lines : list string) : res (Z * list sshell) :=
+(* _parse_electron_lines after create_element_data: gives the nuclear charge of the second line and the shells.
+   `check` stands for the statements between the nuclear charge and the partition into shells:
+       ecp_electrons = int(element_Z) - int(nuc_charge)
+       if 'ecp_electrons' in element_data and element_data['ecp_electrons'] != ecp_electrons: raise RuntimeError
+   (nothing to check in the electron-only model; Model/MolcasEcp.v passes the test against the stored count) *)
+Definition mc_parse_electron_block (check : Z -> res unit) (basis_lines : list string) : res (Z * list sshell) :=
   do ol <- remove_block is_options is_endoptions basis_lines;
   let '(options_lines, basis_lines) := ol in
   let n_option_blocks := List.length (filter is_block_option options_lines) in
@@ -328,6 +331,7 @@ Definition mc_parse_electron_block (basis_lines : list string) : res (Z * list s
     | None => fail ERuntime
     | Some (a, ob) =>
       do nuc <- nuc_charge_value a;
+      do _ <- check nuc;
       do shell_blocks <- partition_lines rest starts_decimal true 1 0 0;
       if match ob with
          | Some b => negb (Z.eqb (Z.of_nat (List.length shell_blocks))
@@ -368,7 +372,7 @@ Fixpoint mc_element_split (element_Z : Z) (blocks : list (list string)) (bs_data
       if str_prefix "m1" (lower first) then fail ERuntime else
       (* manip.create_element_data(bs_data, element_Z, 'electron_shells'): RuntimeError when the key exists *)
       if existsb (Z.eqb element_Z) (map fst bs_data) then fail ERuntime else
-      do cs <- mc_parse_electron_block b;
+      do cs <- mc_parse_electron_block (fun _ => ok tt) b;
       mc_element_split element_Z t (bs_data ++ [(element_Z, snd cs)])
     end
   end.
